@@ -12,7 +12,13 @@ importing deephyper, records every completed operation on log_dir/results* (incl
      Fixed) emits for the observed batching;
   4. for EVERY k a crashed run: CORRESPONDENCE file-system model <-> OS: the bytes that survive must be exactly what
      `crash T k` (entry 1503) predicts (buffered writes reach the file at close); ORACLE ok_survivors (entry 1504) on the
-     real bytes; and CBO.fit_surrogate must load the surviving results.csv.
+     real bytes; and CBO.fit_surrogate must load the surviving results.csv;
+  5. RESTART at every crash point: in the directory the kill left behind (stale results.csv.tmp included) a forked child
+     creates a NEW search (CBO-DUMMY for even k, with fit_surrogate on the renamed survivor; RandomSearch for odd k) and
+     runs search(2..3): it must not raise, and the ORACLE ok_restart (entry 1505) on the bytes before / after decides:
+     every *.csv well formed, no row id lost, the new evaluations are rows of the new results.csv, every earlier *.csv
+     is intact under a name that is not results.csv.  Opens of results* with a mode other than "w" / "a" break the
+     correspondence with the model (clause open_mode).
 """
 import csv
 import io
@@ -39,55 +45,54 @@ TRUSTED = [
     "CBO(surrogate_model='DUMMY').fit_surrogate as the loader of a surviving results.csv",
 ]
 ASSUMPTIONS = ["one process writes to log_dir", "log_dir is empty when the first search is created", "serial evaluator, RandomSearch"]
-RULE = ("quick: every crash point of a 2-call single-objective search (batch 2), of a 1-call two-objective search, of a single-objective search whose "
+RULE = ("quick: every crash point (+ a restart in every surviving directory) of a 2-call single-objective search (batch 2), of a 1-call and a 2-call two-objective search, of a single-objective search whose "
         "first evaluations fail, and of 3 searches created within one second; thorough: batches 1-8, 1-3 calls, failures, 2-5 same-second searches. "
         "non-trivial = every scenario (each has >= 10 crash points)")
 
-F_TRACE, F_OKTRACE, F_CRASH, F_OKSURV = 1501, 1502, 1503, 1504
+F_TRACE, F_OKTRACE, F_CRASH, F_OKSURV, F_OKRESTART = 1501, 1502, 1503, 1504, 1505
 CHILD = os.path.join(os.path.dirname(os.path.abspath(__file__)), "c15_child.py")
 PAR = int(os.environ.get("VP_C15_PAR", "6"))
 
 
 # ------------------------------------------------------------------ running children
-def run_children(scen, ks, keep_dir=None):
-    """One interpreter patches and imports deephyper once, then forks one process per crash point (PAR at a time).
-    Returns {k: dict(ops, actions, finished, survivors{name: text}, rc, err, keep)}."""
-    base = tempfile.mkdtemp(prefix="vp_c15_")
-    try:
-        jobs = []
-        for k in ks:
-            log_dir, side = os.path.join(base, "log%d" % k), os.path.join(base, "side%d" % k)
-            os.makedirs(log_dir)
-            os.makedirs(side)
-            jobs.append([k, log_dir, side])
-        p = subprocess.run([sys.executable, CHILD, json.dumps(scen), str(PAR)], input=json.dumps(jobs), env=dict(os.environ),
-                           stdout=subprocess.PIPE, stderr=subprocess.PIPE, text=True, timeout=800)
-        if p.returncode != 0:
-            raise RuntimeError("fork server failed: " + p.stderr[-1500:])
-        codes = json.loads(p.stdout)
-        out = {}
-        for (k, log_dir, side), rc in zip(jobs, codes):
-            res = dict(rc=rc, err="")
-            ef = os.path.join(side, "err.txt")
-            if os.path.exists(ef):
-                res["err"] = open(ef).read()[-1500:]
-            rd = lambda name: [json.loads(ln) for ln in open(os.path.join(side, name))] if os.path.exists(os.path.join(side, name)) else []
-            res["ops"], res["actions"] = rd("ops.jsonl"), rd("actions.jsonl")
-            fin = os.path.join(side, "finished.txt")
-            res["finished"] = [tuple(int(x) for x in ln.split()) for ln in open(fin)] if os.path.exists(fin) else []
-            res["survivors"] = {}
-            for fn in sorted(os.listdir(log_dir)):
-                if fn.startswith("results"):
-                    with open(os.path.join(log_dir, fn), newline="") as f:
-                        res["survivors"][fn] = f.read()
-            res["keep"] = None
-            if keep_dir is not None and "results.csv" in res["survivors"]:
-                res["keep"] = os.path.join(keep_dir, "surv_%d.csv" % k)
-                shutil.copy(os.path.join(log_dir, "results.csv"), res["keep"])
-            out[k] = res
-        return out
-    finally:
-        shutil.rmtree(base, ignore_errors=True)
+def read_dir(log_dir):
+    out = {}
+    for fn in sorted(os.listdir(log_dir)):
+        if fn.startswith("results"):
+            with open(os.path.join(log_dir, fn), newline="") as f:
+                out[fn] = f.read()
+    return out
+
+
+def run_children(scen, base, ks, tag="", extra=None):
+    """One interpreter patches and imports deephyper once, then forks one process per job (PAR at a time).
+    Crash jobs: a fresh log_dir per crash point k.  Restart jobs (extra(k) given): the directory the crashed process left.
+    Returns {k: dict(ops, actions, finished, survivors{name: text}, rc, err, log_dir)}; the caller removes `base`."""
+    jobs = []
+    for k in ks:
+        log_dir, side = os.path.join(base, "log%d" % k), os.path.join(base, "side%s%d" % (tag, k))
+        os.makedirs(log_dir, exist_ok=True)
+        os.makedirs(side)
+        jobs.append([k if extra is None else 0, log_dir, side] + ([extra(k)] if extra is not None else []))
+    p = subprocess.run([sys.executable, CHILD, json.dumps(scen), str(PAR)], input=json.dumps(jobs), env=dict(os.environ),
+                       stdout=subprocess.PIPE, stderr=subprocess.PIPE, text=True, timeout=800)
+    if p.returncode != 0:
+        raise RuntimeError("fork server failed: " + p.stderr[-1500:])
+    codes = json.loads(p.stdout)
+    out = {}
+    for k, job, rc in zip(ks, jobs, codes):
+        log_dir, side = job[1], job[2]
+        res = dict(rc=rc, err="", log_dir=log_dir)
+        ef = os.path.join(side, "err.txt")
+        if os.path.exists(ef):
+            res["err"] = open(ef).read()[-1500:]
+        rd = lambda name: [json.loads(ln) for ln in open(os.path.join(side, name))] if os.path.exists(os.path.join(side, name)) else []
+        res["ops"], res["actions"] = rd("ops.jsonl"), rd("actions.jsonl")
+        fin = os.path.join(side, "finished.txt")
+        res["finished"] = [tuple(int(x) for x in ln.split()) for ln in open(fin)] if os.path.exists(fin) else []
+        res["survivors"] = read_dir(log_dir)
+        out[k] = res
+    return out
 
 
 # ------------------------------------------------------------------ text -> abstract lines
@@ -130,6 +135,10 @@ def parse_lines(text, header):
         else:
             out.append([1, uid_of(row, header or []), len(row)])
     return out, header
+
+
+def open_modes(ops):
+    return sorted(set(o["mode"] for o in ops if o["op"] == "open"))
 
 
 def abstract_ops(ops, names):
@@ -247,7 +256,20 @@ def check(case):
                desc=["searches=%d" % nsearch, "multi=%s" % any(s.get("multi") for s in scen["searches"]),
                      "calls=%d" % max(len(s["calls"]) for s in scen["searches"]), "workers=%d" % max(s.get("workers", 1) for s in scen["searches"]),
                      "failures=%s" % any(any(s.get("fails", [])) for s in scen["searches"])])
-    full = run_children(scen, [0])[0]
+    base = tempfile.mkdtemp(prefix="vp_c15_")
+    try:
+        return check_in(case, scen, m, res, base)
+    finally:
+        shutil.rmtree(base, ignore_errors=True)
+
+
+RESTART_CLAUSES = {1: "restart:file_not_wellformed", 2: "restart:rows_lost", 3: "restart:new_evaluations_missing", 4: "restart:earlier_results_not_kept"}
+
+
+def check_in(case, scen, m, res, base):
+    nsearch = len(scen["searches"])
+    os.makedirs(os.path.join(base, "full"))
+    full = run_children(scen, os.path.join(base, "full"), [0])[0]
     if full["rc"] != 0:
         return dict(res, ok=False, clause="child_failed", detail=full["err"])
     raised = [a for a in full["actions"] if a["act"] == "raised"]
@@ -288,13 +310,15 @@ def check(case):
             variant = nm
             break
     res["desc"].append("variant=%s" % variant)
-    # ---- 4. every crash point for real
+    modes = open_modes(full["ops"])
+    # ---- 4. every crash point for real, and a RESTART in what every kill left behind
     jobs = list(range(1, N + 1)) if focus == "files" else []
-    tmpd = tempfile.mkdtemp(prefix="vp_c15s_")
-    try:
-        runs = run_children(scen, jobs, keep_dir=tmpd) if jobs else {}
-        runs = [(k, runs[k], runs[k]["keep"]) for k in jobs]
-        for k, r, keep in runs:
+    multi0 = bool(scen["searches"][0].get("multi"))
+    if jobs:
+        runs = run_children(scen, base, jobs)
+        befores = {}
+        for k in jobs:
+            r = runs[k]
             if r["rc"] != 77:
                 return dict(res, ok=False, kind="corr", clause="crash_not_reached", detail=dict(k=k, rc=r["rc"], err=r["err"], ops=len(r["ops"])))
             nm = Names()                 # tokens by order of appearance: the real-clock names differ between processes
@@ -313,16 +337,38 @@ def check(case):
                 return dict(res, ok=False, clause="survivor_not_wellformed", detail=dict(k=k, survivors=r["survivors"], finished=fin_k))
             if surv != pred:
                 return dict(res, ok=False, kind="corr", clause="fs_model", detail=dict(k=k, survivors=surv, predicted=pred, text=r["survivors"]))
-            if keep and os.path.exists(keep) and okk:
-                err = fit_surrogate(keep)
+            path = os.path.join(r["log_dir"], "results.csv")
+            if os.path.exists(path) and okk:
+                err = fit_surrogate(path)
                 if err and viol is None:
                     return dict(res, ok=False, clause="fit_surrogate:" + err[0], detail=dict(k=k, error=err[1], survivor=r["survivors"].get("results.csv")))
-    finally:
-        shutil.rmtree(tmpd, ignore_errors=True)
+            befores[k] = (nm, surv, fin_k)
+        if viol is None:
+            # a new search (CBO-DUMMY for even k, RandomSearch for odd k) is created and run in every surviving directory
+            spec = lambda k: dict(restart=dict(kind="cbo" if k % 2 == 0 else "random", n=2 + k % 2, multi=multi0))
+            reruns = run_children(scen, base, jobs, tag="r", extra=spec)
+            for k in jobs:
+                r2 = reruns[k]
+                nm, surv, fin_k = befores[k]
+                detail = dict(k=k, restart=spec(k)["restart"], before=runs[k]["survivors"], after=r2["survivors"], actions=r2["actions"][-3:], err=r2["err"])
+                rz = [a for a in r2["actions"] if a["act"] == "raised"]
+                if r2["rc"] != 0 or rz:
+                    exc = rz[0]["exc"] if rz else "child_failed"
+                    out = dict(res, ok=False, clause="restart_raised:" + exc, detail=detail)
+                    out["sig"] = dict(res["sig"], clause="restart_raised")
+                    return out
+                after = abstract_files(r2["survivors"], nm)
+                newfin = [u for u, _ in r2["finished"]]
+                okr, cl = m.call(F_OKRESTART, [fin_k, newfin, surv, after])
+                if not okr:
+                    return dict(res, ok=False, clause=RESTART_CLAUSES.get(cl, "restart:?"), detail=detail)
+            res["desc"].append("restarts=%d" % (len(jobs) // 10 * 10))
     if viol is not None:
         return viol
     if variant is None:
         return dict(res, ok=False, kind="corr", clause="trace_vs_model", detail=dict(observed=canon, today=merge_writes(m.call(F_TRACE, [0, acts])), fixed=merge_writes(m.call(F_TRACE, [1, acts]))))
+    if any(md not in ("w", "a") for md in modes):
+        return dict(res, ok=False, kind="corr", clause="open_mode", detail=dict(modes=modes, note="the model opens with 'w' (first write, temporary file) or 'a' (append) only"))
     return res
 
 
@@ -357,6 +403,7 @@ def gen(rng, tier):
     quick = [
         S(searches=[dict(workers=2, calls=[4, 2])]),
         S(searches=[dict(workers=2, calls=[4], multi=True)]),
+        S(searches=[dict(workers=2, calls=[2, 2], multi=True)]),
         S(searches=[dict(workers=1, calls=[3, 1], fails=[True, True, False, False])]),
         S(searches=[dict(workers=1, calls=[2]), dict(workers=1, calls=[2]), dict(workers=1, calls=[2])], same_second=True),
     ]
